@@ -73,7 +73,7 @@ static void build_base_files ()
 	{	MemFile mf ; OpenSpec s ; s.format = fmts [i].format ; s.ch = 2 ; s.rate = 44100 ;
 		SNDFILE *f = open_write_mem (mf, s) ; if (!f) continue ;
 		if (m) set_metadata (f) ;
-		short buf [128] ; for (int k = 0 ; k < 128 ; k++) buf [k] = (short) (k * 517 - 9000) ;
+		short buf [128] ; for (int k = 0 ; k < 128 ; k++) buf [k] = (short) ((k & 1) ? 10000 + (k * 517) % 20000 : (k * 517) % 9000 - 4500) ;	// channel 1 is the louder one: per-channel peak data differs from the overall maximum
 		sf_writef_short (f, buf, 64) ;
 		sf_close (f) ;
 		base_file [i] [m] = mf.data ;
@@ -121,6 +121,7 @@ static uint64_t digest (SNDFILE *f, MemFile &mf)
 	static SF_CUES cu ; memset (&cu, 0, sizeof (cu)) ; int r3 = sf_command (f, SFC_GET_CUE, &cu, sizeof (cu)) ; h = fnv1a (&r3, 4, h) ; if (r3) h = fnv1a (&cu, sizeof (cu), h) ;
 	SF_INSTRUMENT in ; memset (&in, 0, sizeof (in)) ; int r4 = sf_command (f, SFC_GET_INSTRUMENT, &in, sizeof (in)) ; h = fnv1a (&r4, 4, h) ; if (r4) h = fnv1a (&in, sizeof (in), h) ;
 	int map [2] = { 0, 0 } ; int r5 = sf_command (f, SFC_GET_CHANNEL_MAP_INFO, map, sizeof (map)) ; h = fnv1a (&r5, 4, h) ; if (r5) h = fnv1a (map, sizeof (map), h) ;
+	double pk [2] = { -1, -1 } ; int r6 = sf_command (f, SFC_GET_MAX_ALL_CHANNELS, pk, sizeof (pk)) ; h = fnv1a (&r6, 4, h) ; if (r6) h = fnv1a (pk, sizeof (pk), h) ;	// stored per-channel peaks (PEAK chunk)
 	h = fnv1a (mf.data.data (), mf.data.size (), h) ;
 	return h ;
 }
